@@ -31,7 +31,7 @@ CHECKS = {
    level="TLC enumerates receiver kind (11 value kinds + free functions/constructors) x every member of the spec's tables (+ an unknown member) x access {get,set,call,new} x all argument tuples of arity <= 2 over an 18-value boundary pool (281k invocations; quick: all of arity <= 1 plus a seeded 45000), with the outcome the validator patterns demand; plus random tuples of arity 3-4 per method, 37 operator/index/assignment/iteration/construction/throw/format forms on every receiver kind, and input-variable texts. Each case runs in a worker process and must end as a value or a Zn error - never a Go panic, a nil result, a process exit or a hang. The getter/setter/method tables and Register* calls extracted from the sources must equal the spec's tables (otherwise exit 2, unmodelled).",
    note="trusted: TLC; worker-process isolation (recover + watchdog); boundary pool chosen from the validators' decision points; stdlib/http excluded (does not compile)", ref="5 C10"),
  "C14": dict(
-   technique="TLA+ character-sequence spec of text operations (ZnText) and template scanner state machine with directive plans (ZnFmt) model-checked by TLC; TLC-enumerated texts/index pairs and templates replayed through the interpreter",
+   technique="TLA+ character-sequence spec of text operations (ZnText) and template scanner state machine with directive plans (ZnFmt) model-checked by TLC; TLC-enumerated texts/index pairs and templates replayed through the interpreter; observation rows of a text variable recorded from real runs validated by TLC (Trace_ZnText)",
    level="Text: TLC enumerates all texts <= 4 over 5 encoded-width classes (ASCII, 2-byte, CJK, astral, combining mark) x index pairs from {-6,-2,-1,0..6} (78100 vectors; quick replays a seeded 30000): 长度/字数, 字符组, 分隔 by the empty text, 取样 (exactly characters i..j inside the documented range; elsewhere a catchable error or a run of whole characters) and the split/join law with the spec's pieces. Format: all templates <= 5 (thorough 6) over {text,{,},#,+,.,digit,E,%} plus long-precision templates are scanned by the spec's state machine (TLC checks all literal text is copied verbatim) and each is applied to 4 argument shapes: the result text or the error must agree.",
    note="trusted: TLC; strconv.FormatFloat for the digits of the verb/precision/sign the spec selects; interpreter's own display form inside {}", ref="5 C14"),
  "C13": dict(
@@ -79,7 +79,7 @@ CHECKS = {
    level="Every control skeleton over {mark, if/elseif/else, while, iterate over list/dict with 0/1/2 names, break, continue, return} up to size 4 (5 thorough) with nesting<=3, plus a seeded sample of the next size, is run at top level and inside a method through the ZnEval machine by TLC (all invariants in every state); the real interpreter must execute exactly the same statements in the same order at the same call depth (H2 line events), display the same values and return the same result.",
    note=EVAL_NOTE, ref="5 C02"),
  "C01": dict(
-   technique="TLA+ expression machine (ZnExpr: precedence table, minimal-brace renderer, reference evaluator, stack machine with short-circuit jumps) model-checked with TLC; TLC-generated trees/expected outcomes replayed through Interpreter.Execute in several spellings",
+   technique="TLA+ expression machine (ZnExpr: precedence table, minimal-brace renderer, reference evaluator, stack machine with short-circuit jumps) model-checked with TLC; TLC-generated trees/expected outcomes replayed through Interpreter.Execute in several spellings; IEEE facet: TLC-checked lowering of every operator to primitive code, executed over float64 by the harness",
    level="TLC enumerates every operator on every ordered pair of 16 leaves and all 4096 ordered operator triples in all 5 tree shapes (plus random depth-4 trees in the thorough tier), checks on the spec that the instruction machine agrees with the reference evaluator in every terminal state, and emits each tree with its minimal-brace token list, expected value or error and probe (evaluation) order; the real interpreter must reproduce each of them in 3-8 concrete spellings.",
    note="trusted: TLC; exact-rational arithmetic in the spec vs IEEE doubles only on exactly representable (dyadic) intermediates; the harness's literal spellings",
    ref="5 C01"),
@@ -88,6 +88,26 @@ CHECKS = {
    level="TLC enumerates every byte-class file up to length 4 (quick) / 5 (thorough) x block sizes and proves, on the spec, that the chunked decoder equals the one-shot decoder or both reject; every vector is then replayed through the real FileStream.Read(n), ReadAll (incl. every split across the 4096 block boundary), ByteStream and end-to-end execution, comparing with the spec's expected characters. Exhaustive within the bound, nothing beyond it.",
    note="trusted: TLC, the byte-class abstraction (RFC 3629 well-formedness table), the harness's byte substitution and bit-formula code point computation",
    ref="5 C17"),
+}
+
+ADD = {   # what was added after the seeded-change rounds (DESIGN.md 13); appended to the level text
+ "C01": " IEEE facet: TLC also emits the operator-triple trees with numeric leaves as slots together with their LOWERING to primitive code (+ - * / floor, ordered comparisons, ==; invariant LoweringAgrees: the lowered code over exact rationals = the reference evaluator on every tree); the harness runs that code over float64 with slot values from a 25-value pool (0.1, 4.35, 2^53+1, 1e308, 5e-324, -0, +-Inf, NaN ...) - every operator x every ordered pair, random assignments for the triples - and compares bit for bit.",
+ "C02": " Non-boolean conditions at every condition position (如果, 再如 after false arms, 每当 on a later pass, inside methods).",
+ "C03": " Plus a 72-program nest family (an inner 如果 / loop ending a branch block never takes the outer 再如/否则) and comparison/logic operators written without blanks as a layout deviation.",
+ "C05": " Every class text is also replayed with randomly drawn other members of the classes (all 20 blanks of the lexer's table, every quote family, ASCII twins of the punctuation, keywords, DEL/ESC/BOM/U+FFFD/U+2028).",
+ "C06": " Programs also cover a call whose input binding fails and is caught by the caller (all depths must return) and inner declarations / inputs / loop variables / 得到 names that shadow module-level methods and types.",
+ "C07": " Binding forms include literals that mention a variable and collections handed to storing methods (后增 / 写入 keep a copy).",
+ "C08": " Plus in-place number mutators (自增/自减) on per-instance default properties and wrong-arity calls to a callee that has its own handler (fails in the caller).",
+ "C09": " Raise points also inside 8 expression positions (遍历 target, 每当/如果/再如 condition, call argument, declaration, list item, 输出 value).",
+ "C10": " Plus 60 input-variable texts and the shape family: values that contain themselves (built through every storing method), objects reaching themselves, results of bodies that produce nothing, types/methods as values x 19 ways of consuming a value; the display recorder builds the text like the predefined 显示.",
+ "C11": " Site kind collect-then-stable-sort with its non-injective-key deviation refuted; dictionary literals repeating a key under repetition; the same HTTP request (names differing only in case) served 64 times through ZnHttpHandler must get one answer.",
+ "C12": " Dictionary literals with every pattern of repeated keys over <= 4 keys (first position, last value); the trace spec also binds `kept`: the last NEW collection handed out by 逆序/合并/所有索引/所有值 keeps its value whatever is done to the receiver afterwards.",
+ "C13": " U+ escapes over {0,1,D,F}^<=8 and {0,1,8,D,F}^<=6 (zero padding, surrogates, > 10FFFF); every decode body with a complete back-tick sequence is replayed; failed escapes containing quotes of another family are demanded.",
+ "C14": " One text VARIABLE observed (长度, 字数, 字符组, 分隔, 取样, the text) before / between / after ordered pairs of 12 text methods on 13 texts: every observation row is validated by TLC against Trace_ZnText (one character sequence must explain all observers).",
+ "C15": " Four home-module probes per module (method, handler block, constructing body, type method).",
+ "C16": " As built: 9 polluters (also: write into the headers a response constructor supplied; run a FILE that imports a custom module file), 820 sequences (quick: all of <= 2 and 40 percent of 3), probe executed as a file.",
+ "C18": " Plus faults in expression positions and faults raised inside handler blocks (rethrow / built-in fault): the report must end at the handler's own line below the frame whose call raised the handled exception.",
+ "C19": " Keys range over 4 atoms incl. a key of control characters / DEL / backslash / a non-printable astral character.",
 }
 
 NA_REASON = "check not built yet in this round (planned in DESIGN.md section 5); not claimed"
@@ -106,7 +126,7 @@ def main():
             evidence_file="/verif/evidence/%s.json" % pid,
             replay_cmd_template="bin/check %s --replay {path}" % pid,
             engine="tlc+znh",
-            level_claimed=dict(category="model_checking", text=c["level"], design_ref="DESIGN.md section " + c["ref"]),
+            level_claimed=dict(category="model_checking", text=c["level"] + ADD.get(pid, ""), design_ref="DESIGN.md section " + c["ref"]),
             level_note=c["note"],
             technique=c["technique"],
         ))
